@@ -2,6 +2,10 @@
 """Print the prompt for an independent mutation-seeding agent (gets only the property text and a worktree)."""
 import json, sys
 pid = sys.argv[1]; wt = sys.argv[2]; n = sys.argv[3] if len(sys.argv) > 3 else '3'
+import glob, os
+prev = []
+for q in sorted(glob.glob('/verif/seeded/%s-*/README.md' % pid)):
+    prev.append(open(q).readline().strip().lstrip('# '))
 for l in open('/verif/properties.jsonl'):
     d = json.loads(l)
     if d['id'] == pid:
@@ -21,4 +25,4 @@ For each change k = 1..{n} create a directory {wt}/_seed/k/ containing:
   * patch.diff  — `git diff` of that change alone against the unmodified worktree (paths relative to the repository root, applies with `git apply`); reset the tree (`git checkout -- taurex`, or `git apply -R`) between changes so the patches are independent; NEVER use `git stash` (the stash is shared with other people's worktrees of the same repository and pops get crossed), and do not create branches or commits;
   * demo.py     — a small standalone program (uses only the library, numpy, stdlib; builds any inputs/fixtures in memory or in a temp dir; no network, no data files from outside) that exits 0 and prints PASS when the property holds for its scenario and exits 1 printing FAIL with the offending numbers when it does not. It must PASS on the unmodified worktree and FAIL with the patch applied. Run it as `cd {wt} && PYTHONPATH={wt} /venv/bin/python -W ignore _seed/k/demo.py`;
   * README.md   — which clause of the property the change breaks, what is needed for it to manifest, which tests you ran (with and without the patch) and their pass/fail counts.
-Verify all of it yourself (demo passes without / fails with the patch; relevant tests unchanged; `python -c "import taurex"` works). Leave the worktree checked out clean (no patch applied) at the end, with only the _seed directory added. Reply with a short list of the changes you made (file, idea, what it needs to manifest).""")
+Verify all of it yourself (demo passes without / fails with the patch; relevant tests unchanged; `python -c "import taurex"` works). Leave the worktree checked out clean (no patch applied) at the end, with only the _seed directory added. Reply with a short list of the changes you made (file, idea, what it needs to manifest).""" + ("\n\nEarlier contributors already produced the following changes; yours must be DIFFERENT in mechanism and location (do not repeat or vary these):\n" + "\n".join("  - " + t for t in prev) if prev else ""))
